@@ -267,6 +267,10 @@ pub struct InstructionGenerator {
     pub subprogram_info_repository: SubprogramInfoRepository,
     pub current_subprogram: ScopeName,
     pub linter_names: Names,
+    /// Appended to generated label names. Non-empty while generating the
+    /// second copy of a `FOR ... STEP` body, so that the labels of blocks
+    /// nested in the two copies of the body remain distinct.
+    pub label_suffix: String,
 }
 
 impl InstructionGenerator {
@@ -277,6 +281,7 @@ impl InstructionGenerator {
             subprogram_info_repository,
             current_subprogram: ScopeName::Global,
             linter_names,
+            label_suffix: String::new(),
         }
     }
 
@@ -437,7 +442,7 @@ impl InstructionGenerator {
     pub fn jump_if_false(&mut self, prefix: &str, pos: Position) {
         self.push(
             Instruction::JumpIfFalse(AddressOrLabel::Unresolved(CaseInsensitiveString::new(
-                format!("_{}_{:?}", prefix, pos),
+                format!("_{}_{:?}{}", prefix, pos, self.label_suffix),
             ))),
             pos,
         );
@@ -446,7 +451,7 @@ impl InstructionGenerator {
     pub fn jump(&mut self, prefix: &str, pos: Position) {
         self.push(
             Instruction::Jump(AddressOrLabel::Unresolved(CaseInsensitiveString::new(
-                format!("_{}_{:?}", prefix, pos),
+                format!("_{}_{:?}{}", prefix, pos, self.label_suffix),
             ))),
             pos,
         );
@@ -454,7 +459,7 @@ impl InstructionGenerator {
 
     pub fn label(&mut self, prefix: &str, pos: Position) {
         self.push(
-            Instruction::Label(CaseInsensitiveString::new(format!("_{}_{:?}", prefix, pos))),
+            Instruction::Label(CaseInsensitiveString::new(format!("_{}_{:?}{}", prefix, pos, self.label_suffix))),
             pos,
         );
     }
